@@ -955,7 +955,8 @@ def run(ctx):
     ctx.cov["rule"] = ("%d fixed cases (hand-written corpus + finite table: 36 grammatical prefix combinations x 4 types x der?, "
                        "and all 128 subsets of 7 keywords x 4 types injected at AST level) + %d random flat models (0-2 helper "
                        "classes, short-class type aliases incl. alias of alias on nested and top-level symbols, nested instances, arrays, for/if equations, user functions with for-statements and locals named like model variables, for-equation "
-                       "indices named like model variables, der in expressions / initial equations / "
+                       "indices named like model variables, replaceable elements with component redeclarations in extends / component "
+                       "modifications, generate-edit-generate sequences on one tree, der in expressions / initial equations / "
                        "declaration equations / start attributes; 30%% with AST-injected prefixes and orders) + malformed; "
                        "non-trivial = valid case with >= 2 flat symbols, distinct by (symbol table, text)" % (n_fixed, n_rand))
     ctx.cov["samples"] = [cases[0]["text"], cases[n_fixed]["text"], cases[n_fixed + 1].get("inject") or cases[n_fixed + 1]["text"]]
